@@ -134,7 +134,8 @@ def random_history(rng, opts, gran, block, pat, nops, profile):
                     handles[h][1] = ns
                     total -= sz - ns
         elif r < grow + 0.40:
-            h = rng.randrange(0, len(handles))
+            h = pick_live() if rng.random() < 0.7 else rng.randrange(0, len(handles))
+            h = min(h, len(handles) - 1)
             lines.append("query %d %d" % (h, rng.choice([0, 1, eff_gran - 1, eff_gran, handles[h][1] // 2, max(0, handles[h][1] - 1), handles[h][1],
                                                          handles[h][1] + eff_gran])))
         elif r < grow + 0.44:
@@ -189,19 +190,42 @@ class Runner:
         return out
 
     def judge(self, hist):
-        """-> ('crash', stderr) | ('bad', line index, message) | ('diff', line index, impl, model) | None for one history"""
+        """-> list of findings for one history: ('crash', n, stderr) | ('bad', line index, message) | ('diff', line index, impl, model)"""
         impl, crashed, err = self.impl(hist)
         if crashed:
-            return ("crash", len(impl), err)
+            return [("crash", len(impl), err)]
         mon = self.monitor(hist, impl)
-        for i, m in enumerate(mon):
-            if m != "good":
-                return ("bad", i, m)
+        out = [("bad", i, m) for i, m in effective_bads(mon, hist)]
+        if out:
+            return out
         model = self.model(hist)
         d = vlib.first_diff(impl, model)
         if d is not None:
-            return ("diff", d, impl[d] if d < len(impl) else "<none>", model[d] if d < len(model) else "<none>")
-        return None
+            return [("diff", d, impl[d] if d < len(impl) else "<none>", model[d] if d < len(model) else "<none>")]
+        return []
+
+
+OBSERVERS = {"cfg", "isinit", "sweep", "mem", "read", "query", "blocks", "dump", "rforeign", "qforeign", "sforeign", "sstale"}
+
+
+def effective_bads(mon, lines):
+    """BAD verdicts of one history that are worth reporting: those on observation operations (they do not move the ghost state; first of
+    each key) and the first one on a state-changing operation (after it the ghost state is no longer in step with the allocator, later
+    verdicts could be consequences)."""
+    out, seen = [], set()
+    for i, m in enumerate(mon):
+        if m == "good":
+            continue
+        k = bad_key(m)
+        if lines[i].split()[0] in OBSERVERS:
+            if k not in seen:
+                seen.add(k)
+                out.append((i, m))
+            continue
+        if k not in seen:
+            out.append((i, m))
+        break
+    return out
 
 
 def bad_key(msg):
@@ -215,10 +239,10 @@ def shrink_history(runner, hist, kind, key):
     cfg, body = hist[0], hist[1:]
 
     def fails(cand):
-        j = runner.judge([cfg] + cand)
-        if j is None or j[0] != kind:
-            return False
-        return kind != "bad" or bad_key(j[2]) == key
+        for j in runner.judge([cfg] + cand):
+            if j[0] == kind and (kind != "bad" or bad_key(j[2]) == key):
+                return True
+        return False
 
     small = vlib.ddmin(body, fails, max_tests=250)
     return [cfg] + small
@@ -268,10 +292,10 @@ def run_batch(runner, hists):
         j = i + 1
         while j < n and not lines_all[j].startswith("cfg "):
             j += 1
-        badi = next((k for k in range(i, j) if mon[k] != "good"), None)
-        if badi is not None:
-            findings.append(("bad", lines_all[i:j], badi - i, mon[badi]))
-        else:
+        bads = effective_bads(mon[i:j], lines_all[i:j])
+        for bi, bm in bads:
+            findings.append(("bad", lines_all[i:j], bi, bm))
+        if not bads:
             di = next((k for k in range(i, j) if impl_all[k] != model[k]), None)
             if di is not None:
                 findings.append(("diff", lines_all[i:j], di - i, impl_all[di], model[di]))
@@ -410,8 +434,7 @@ def run(res):
                 continue
             seen.add(key)
             small = shrink_history(runner, f[1], "bad", key)
-            j = runner.judge(small)
-            msg = j[2] if j and j[0] == "bad" else f[3]
+            msg = next((j[2] for j in runner.judge(small) if j[0] == "bad" and bad_key(j[2]) == key), f[3])
             res.violation("property violated on the real allocator: %s (history of %d lines, shrunk from %d)" % (msg, len(small), len(f[1])),
                           {"ops": small, "monitor": msg, "how": "python3 tools/check.py replay <this file>"}, True, key=key)
         elif kind == "protocol":
@@ -424,10 +447,11 @@ def run(res):
                 continue
             seen.add("corr")
             small = shrink_history(runner, f[1], "diff", "corr")
-            j = runner.judge(small)
-            d = j if j and j[0] == "diff" else f
+            j = [x for x in runner.judge(small) if x[0] == "diff"]
+            d = j[0] if j else f
+            at = d[1] if j else 0
             res.violation("correspondence Model/JitAlloc.lean ~ jitallocator.cpp differs at %r: impl=%s model=%s; the property monitor holds on "
-                          "every explored history" % (small[min(d[1] if j else 0, len(small) - 1)], str(d[-2])[:300], str(d[-1])[:300]),
+                          "every explored history" % (small[min(at, len(small) - 1)], str(d[-2])[:300], str(d[-1])[:300]),
                           {"ops": small, "impl": str(d[-2])[:2000], "model": str(d[-1])[:2000], "unchecked": "correspondence Model/JitAlloc.lean ~ jitallocator.cpp"},
                           False, key="corr")
     if broken and not res.violations:
